@@ -85,7 +85,7 @@ PROPS = {
     "C08": {"jobs": sync_jobs("uncond"), "relevant_probes": ["p_block", "uncond_spin", "uncond_wr"]},
     "C09": {"jobs": sync_jobs("felock"), "relevant_probes": BLOCK_PROBES + ["felock_status"]},
     "C14": {"jobs": sync_jobs("once"), "relevant_probes": ["once_cas", "once_spin", "once_done_wr"]},
-    "C10": {"jobs": [sy("tls", flavour="asan", weight=4), sy("tls", weight=3), sy("tls", {"mode": 2}, weight=2), sy("tls", flavour="O0", weight=1), sy("tls", flavour="fn", weight=1)],
+    "C10": {"jobs": [sy("tls", flavour="asan", weight=4), sy("tls", weight=3), sy("tls", {"mode": 2}, weight=2), sy("tls", {"mode": 1}, weight=3), sy("tls", flavour="O0", weight=1), sy("tls", flavour="fn", weight=1)],
             "relevant_probes": ["key_cas", "key_rd", "p_steal_hit"],
             "rule": "each evaluation is one simulated execution of a seeded key-usage plan (sequential create/delete/set/get history over all 1024 indices, threads with private dictionaries migrating between workers, or concurrent create/delete); non-trivial = a cross-worker preemption happened and (a thread migrated | key CASes raced | sequential history); distinct = distinct event-sequence signatures. Input coverage (key indices that held a value) is reported separately as x_key_indices_that_held_a_value_distinct_count."},
     "C11": {"jobs": [sy("dtor", flavour="asan", weight=4), sy("dtor", weight=3), sy("dtor", flavour="O0", weight=1), sy("dtor", flavour="fn", weight=1)],
